@@ -33,6 +33,7 @@
 -/
 import Kskm.TrustAnchor
 import Kskm.Wordlist
+import KskmGen.Tables
 namespace Kskm.Km
 
 /-! ### Programs over token operations -/
@@ -374,10 +375,12 @@ structure DnsRecords where
   dsDigest : Bytes
   deriving DecidableEq, Repr, Inhabited
 
-/-- `DNSRecords.from_key(key)`: a temporary `KSKKey` is built (its `key_tag` field allows 1…65535 only),
+/-- `DNSRecords.from_key(key)`: a temporary `KSKKey` is built (its `key_tag` field allows
+    `KskmGen.kskKeyTagMin`…65535 only — the lower bound is tabulated from the code on every run: 1 on
+    the pinned tree, where a key with tag 0 could not be reported; 0 after /repo b0ed181),
     then `create_trustanchor_keydigest` -/
 def DnsRecords.fromKey (hash : Hasher) (key : Key) : Res DnsRecords := do
-  if key.keyTag < 1 ∨ 65535 < key.keyTag then err .validation
+  if key.keyTag < (KskmGen.kskKeyTagMin : Int) ∨ 65535 < key.keyTag then err .validation
   let tmp : KskKey := { label := "temp_" ++ toString key.keyTag, keyTag := some key.keyTag,
                         algorithm := key.algorithm, validFrom := 0, validUntil := some 0 }
   let ds ← createTrustanchorKeydigest hash tmp key "."
